@@ -35,6 +35,12 @@ type MemFS struct {
 	ReadErr     error
 	OpenErr     map[string]error
 
+	// ReadStyle varies how opened files hand out their bytes, within what io.Reader
+	// allows: 0 fills the buffer and reports io.EOF with a separate empty read;
+	// 1 returns the last bytes together with io.EOF; 2 returns at most 3 bytes
+	// per call; 3 does both.
+	ReadStyle int
+
 	// BeforeRead, if set, is called before every Read of an opened file
 	// (path, offset) and may block (gates/delays).
 	BeforeRead func(path string, off int)
@@ -186,8 +192,14 @@ func (r *memReader) Read(b []byte) (int, error) {
 	if r.failAt >= 0 && end > r.failAt {
 		end = r.failAt
 	}
+	if r.m.ReadStyle&2 != 0 && end > r.off+3 {
+		end = r.off + 3
+	}
 	n := copy(b, r.d[r.off:end])
 	r.off += n
+	if r.m.ReadStyle&1 != 0 && r.off >= len(r.d) && (r.failAt < 0 || r.failAt >= len(r.d)) {
+		return n, io.EOF
+	}
 	return n, nil
 }
 
